@@ -2,15 +2,29 @@
   C04, object-layer memory safety as theorems — the mpq arithmetic (models: Mpir/Model/AllocSafeMpq6.lean, mirrors of mpq/aors.c,
   mul.c, div.c, md_2exp.c on the memory model of Mpir/Model/AllocSafe.lean).  Property theorems only; helper lemmas live in
   MpirProofs/Lemmas/AllocSafeMpq6.lean.  Tied by ops `as6_*` (harness/ops_allocsafe6.c) and source pins.
+
+  An mpq_t is its two mpz_t fields = two variable ids.  The alias assignments of the C (rop == op1, rop == op2, op1 == op2, all
+  equal, all distinct) are assignments of ids; the theorems quantify over ALL ids and ask only for what every legal assignment
+  satisfies: the two fields of rop are different variables, NUM (rop) is not a denominator field of an operand, and the scratch ids
+  standing for the C's local mpz_t's are fresh.  `valOf` = the integer a field holds; the values are those of the C12 value model
+  (Mpir/Model/Mpq.lean: `Mpq.zgcd`, `Mpq.divexact`).
 -/
 import MpirProofs.Lemmas.AllocSafeMpq6
+import Mpir.Model.Mpq
 namespace Mpir.AllocSafe6
 open Mpir Mpir.AllocSafe
 
-/-- heap for the examples: rop = (0, 1) = 5/3 in one-limb blocks, op1 = (2, 3) = -(B^2-1)/(B^3-1)·… in exact blocks, op2 = (4, 5) = 0/1 -/
+/-- heap for the examples: rop = (0, 1) = 5/3 in one-limb blocks, op1 = (2, 3) = -(B^2-2)/(B^3-1) in exact blocks, op2 = (4, 5) = 0/1 -/
 def exq : St := ⟨fun i => if i = 0 then ⟨1, 0, ⟨1, [5]⟩⟩ else if i = 1 then ⟨1, 0, ⟨1, [3]⟩⟩
                   else if i = 2 then ⟨-2, 0, ⟨2, [B - 2, B - 1]⟩⟩ else if i = 3 then ⟨3, 0, ⟨3, [B - 1, B - 1, B - 1]⟩⟩
                   else if i = 4 then ⟨0, 0, ⟨1, [junk]⟩⟩ else ⟨1, 0, ⟨1, [1]⟩⟩, true⟩
+
+/-- heap with two proper fractions: op1 = (2, 3) = 6/35, op2 = (4, 5) = -(14·B)/9, rop = (0, 1) = 5/3; all blocks exact -/
+def exm : St := ⟨fun i => if i = 0 then ⟨1, 0, ⟨1, [5]⟩⟩ else if i = 1 then ⟨1, 0, ⟨1, [3]⟩⟩
+                  else if i = 2 then ⟨1, 0, ⟨1, [6]⟩⟩ else if i = 3 then ⟨1, 0, ⟨1, [35]⟩⟩
+                  else if i = 4 then ⟨-2, 0, ⟨2, [0, 14]⟩⟩ else ⟨1, 0, ⟨1, [9]⟩⟩, true⟩
+
+/-! ## mpq_div (mpq/div.c) -/
 
 /-- mpq_div (mpq/div.c:33-34): a zero divisor raises DIVIDE_BY_ZERO before anything is written, for every alias assignment. -/
 theorem mpq_div_zero (s : St) (qn qd an ad bn bd g1 g2 t1 t2 nt : Nat) (h0 : (s.h bn).size = 0) :
@@ -18,5 +32,31 @@ theorem mpq_div_zero (s : St) (qn qd an ad bn bd g1 g2 t1 t2 nt : Nat) (h0 : (s.
   simp [mpq_div, St.SIZ, h0]
 
 example : mpq_div exq 0 1 2 3 4 5 6 7 8 9 10 = none := by decide
+
+/-! ## mpq_mul (mpq/mul.c) -/
+
+/-- mpq_mul, the squaring arm `op1 == op2` (mul.c:33-39), prod = (pn, pd) the operand itself or any other variable: two mpz_mul
+    calls (each safe by `mpz_mul_alloc_safe`, incl. its in-place `free_me` / temporary-copy paths when prod is the operand);
+    DEN (op1) is read after NUM (prod) was written, which is harmless because NUM (prod) is not a denominator field.  Both fields
+    of prod well formed, nothing else touched, values num², den². -/
+theorem mpq_mul_sqr_alloc_safe (s : St) (pn pd an ad g1 g2 t1 t2 : Nat) (hs : s.ok = true)
+    (hpn : OWF (s.h pn)) (hpd : OWF (s.h pd)) (han : OWF (s.h an)) (had : OWF (s.h ad))
+    (hf : pn ≠ pd) (hnd : pn ≠ ad) :
+    let s' := mpq_mul s pn pd an ad an ad g1 g2 t1 t2
+    s'.ok = true ∧ OWF (s'.h pn) ∧ OWF (s'.h pd) ∧ (∀ x, x ≠ pn → x ≠ pd → s'.h x = s.h x) ∧
+    valOf s' pn = valOf s an * valOf s an ∧ valOf s' pd = valOf s ad * valOf s ad := by
+  intro s'
+  have e : s' = mpz_mul (mpz_mul s pn an an) pd ad ad := by simp [s', mpq_mul]
+  have W1 := mpz_mul_wrote s pn an an hs hpn han han
+  have W2 := mpz_mul_wrote _ pd ad ad W1.ok (W1.owf_of pd hpd) (W1.owf_of ad had) (W1.owf_of ad had)
+  rw [e]
+  refine ⟨W2.ok, W2.owf_of pn W1.owf, W2.owf, ?_, ?_, ?_⟩
+  · intro x h1 h2; rw [W2.frame x h2, W1.frame x h1]
+  · rw [W2.val_other pn hf, W1.val]
+  · rw [W2.val, W1.val_other ad (Ne.symm hnd)]
+
+-- (-(B^2-2)/(B^3-1))² in place (prod == op1 == op2): both fields regrown through mpz_mul's `free_me` path (2 → 4, 3 → 6 limbs)
+example : (mpq_mul exq 2 3 2 3 2 3 6 7 8 9).ok = true ∧ (mpq_mul exq 2 3 2 3 2 3 6 7 8 9).ALLOC 2 = 4 ∧
+    (mpq_mul exq 2 3 2 3 2 3 6 7 8 9).ALLOC 3 = 6 ∧ valOf (mpq_mul exq 2 3 2 3 2 3 6 7 8 9) 2 = ((B : Int) ^ 2 - 2) ^ 2 := by decide
 
 end Mpir.AllocSafe6
